@@ -14,6 +14,8 @@ import time
 import pytz
 import z3
 
+from engine import xcheck
+
 from engine.pysym import Engine, Interp, SInt, SStr, SymRaise, Unsupported, digits_of, lift, lift_c, mk, sint_from_digits
 from stix2 import utils
 from stix2.utils import Precision, PrecisionConstraint, STIXdatetime
@@ -457,7 +459,7 @@ def job_format(tier, seed):
                     s.add(z3.Not(post))
                     eng.queries += 1
                     ts = time.time()
-                    r = str(s.check())
+                    r = xcheck.check(s)
                     eng.solver_time += time.time() - ts
                     if r == "unsat":
                         if len(samples) < 4:
@@ -576,7 +578,7 @@ def job_parse_format(tier, seed):
                     s.add(z3.Not(post))
                     eng.queries += 1
                     ts = time.time()
-                    r = str(s.check())
+                    r = xcheck.check(s)
                     eng.solver_time += time.time() - ts
                     if r == "unsat":
                         if len(samples) < 4:
@@ -726,7 +728,7 @@ def job_property_clean(tier, seed):
                         s.add(z3.Not(post))
                         eng.queries += 1
                         ts = time.time()
-                        r = str(s.check())
+                        r = xcheck.check(s)
                         eng.solver_time += time.time() - ts
                         if r == "unsat":
                             if len(samples) < 3:
@@ -814,7 +816,7 @@ def job_filename_injective(tier, seed):
                 s.add(*pc)
                 s.add(same_name, z3.Not(same_inst))
                 eng.queries += 1
-                r = str(s.check())
+                r = xcheck.check(s)
                 if r == "unsat":
                     if len(samples) < 3:
                         samples.append({"setting": [p.name, c.name], "name_length": len(na), "query": "name(a) == name(b) and a != b", "result": "unsat"})
